@@ -122,10 +122,21 @@ def runRoot (one : Bool) (flag : Bool) (s : String) : String :=
     else
       "set=" ++ joinOr "." ((sortPairs (started.map (·.1))).map showPair) ++ " err=" ++ errs ++ fin
 
+/-- does the clamping of negative monitor priorities in `PriorityQueue.Push` change the order in
+    which this root's events are taken? (compare with the same script shifted into the range ≥ 0) -/
+def clampMatters (flag : Bool) (s : String) : Bool :=
+  match (s.splitOn ",").mapM parseNode with
+  | none => false
+  | some nodes =>
+    let shifted := nodes.map fun n => { n with prio := some (n.prio.getD 0 + 8) }
+    (Cascade.runScript Book.current stableSort flag nodes).popped
+      != (Cascade.runScript Book.current stableSort flag shifted).popped
+
 def runCascade (workers flag : String) (roots : String) : String :=
   let rs := roots.splitOn "|"
   let nodes : Nat := (rs.map fun r => (r.splitOn ",").length).foldl (· + ·) 0
   "|".intercalate (rs.map (runRoot (workers == "1") (flag == "1"))) ++ " hp=ok" ++ (if nodes ≥ 3 then "\tnt=1" else "")
+    ++ (if workers == "1" && rs.any (clampMatters (flag == "1")) then "\tdev=neg" else "")
 
 /-- `Q`: sortutil.PriorityQueue driven directly; the model is the real representation `HPQ`.
     ops: `+<prio>` Push (value = number of the push), `-` Pop, `k` Peek, `c` Clear.
